@@ -504,6 +504,17 @@ def run_check(pid, tier, seed):
     }
 
     rc = 0
+    # A failed proof HINT (loop invariant, spliced assertion, precondition of a lemma call in a hint) is a failed proof step, not a failed
+    # obligation of the property.  When nothing but hints fails, the property's clauses were verified only under those hints: undecided,
+    # unless a concrete failing input exists (witness search / bounded stand-in).
+    hint_only = bool(mine) and all(n.endswith('/HINT') for n in mine) and not kani_fail and standin_hit is None
+    if hint_only:
+        rp = concretise.bounded_standin(pid, 'only proof hints fail: %s' % sorted(mine), list(mine.values()), REPO, scratch, say)
+        if rp:
+            print('VIOLATION property=%s replay=%s' % (pid, rp), flush=True)
+            return 1
+        say(pid, 'UNDECIDED (exit 2): only proof hints fail (%s) and no failing input was found; the clauses of the property are not decided' % sorted(mine)[:4])
+        return 2
     if demoted and not violation:
         rp = concretise.bounded_standin(pid, 'obligations of functions that call functions without contract: %s' % sorted(demoted)[:8], list(demoted.values()), REPO, scratch, say)
         if rp:
